@@ -190,6 +190,15 @@ def compare_port(run, rule, pp, sp, keys=ALL, exempt=()):
     if not d:
         run.ok(rule, inst, detail="%s equal after the name map (%s)" % ("/".join(keys), ", ".join("%d %s" % (len(sa[k]), k) for k in keys)))
         return
+    if pp.endswith("::floor_division"):
+        # written differently: both sides are floor(x / y) of their own two parameters in the same order (rules.ranges.floor_div_form:
+        # remainder form, sign form, or div_euclid by a divisor asserted positive)
+        from rules.ranges import floor_div_form
+        fa, fb = floor_div_form(a)[0], floor_div_form(b)[0]
+        pa_, pb_ = a.param_names(), b.param_names()
+        if fa and fb and all(t[0] == "param" for t in fa + fb) and [pa_.index(t[1]) for t in fa] == [pb_.index(t[1]) for t in fb]:
+            run.ok(rule, inst, detail="written differently; both sides return floor(dividend / divisor)")
+            return
     parts = []
     for k, oa, ob in d:
         for x in oa:
